@@ -20,7 +20,8 @@ current inputs. quick 3 853 cases ≈ 25–40 s; thorough 33 411 cases ≈ 300 s
 `set_as_range`, writes over formula cells, CSE arrays, computed references."""
 AS['C02'] = """**As built.** Model `Model/Formula/{Syntax,Parse,Emit,PyGrammar,Surface}.lean`; precedence/associativity table, `op_map`,
 `func_map`, `ADDR_FUNCS_NAMES` regenerated into `Generated/Prec.lean`; `Formula/OpsSem.lean` instantiates the evaluator with C10's
-operator semantics. 21 theorems (`C02_sound_ops` = the composition with exactly the semantics the driver runs): `C02_levels`, `C02_left_assoc`,
+operator semantics and a few exactly-defined functions (`libCall`); the live `func_*` handler list is a generated table. 22
+theorems (`C02_handlers` breaks when a new emission handler appears; `C02_sound_ops` = the composition with exactly the semantics the driver runs): `C02_levels`, `C02_left_assoc`,
 `C02_table_is_spec` (the LIVE table equals the statement's levels — seeded change C02-m3, which regrouped `&` with `+ -`, broke
 these by evaluation: theorems 0/20); `C02_amend`, `C02_parse`, `C02_parse_raw` (shunting-yard inverts the grammar for every
 well-formed surface expression incl. prefix −, postfix %, 12 binary operators, parentheses, calls with any argument count and
@@ -98,10 +99,11 @@ fresh vs warmed threads; each thread's values and pass counts vs its solo run. q
 threads."""
 AS['C08'] = """**As built.** Model `Model/Trim.lean` on the Engine workbook (`genGraph`, `inputCells`, `dependants`, `needed`, `live/frozen/keep`,
 `evalFrozen`, `freeze`, `trim`, `trimAsWritten`, `cutAt/override` for buried inputs, `reloadWb`; driver instance
-`Model/TrimInst.lean`). 24 theorems incl.
+`Model/TrimInst.lean`). 26 theorems incl. `C08_failed_trim_atomic` (a rejected trim leaves the model as an `evaluate(outputs)`
+would), `C08_retrim_ready/_preserves` (second trims),
 `C08_independent`, `C08_depOn_iff`, `C08_frozen_value/_constant`, `C08_preserves` (for every cut set C ⊆ inputCells and values v,
 `evaluatedAtTrim` discharged by `trim_ok`, not assumed), `C08_preserves_of_evaluatedAtTrim`, `C08_asWritten_counterexample`,
-`C08_wf` + `C08_wf_dangling_counterexample`, `C08_persist(_commutes)`, `C08_error_iff`, `C08_trim_inv`, `C08_trimmed_engine`.
+`C08_wf` (every kept cell, since fix 732f470), `C08_persist(_commutes)`, `C08_error_iff`, `C08_trim_inv`, `C08_trimmed_engine`.
 Correspondence: three real compilers with the same pre-history — trimmed T, T after to_file/from_file (L), untrimmed U; status,
 `set(cell_map)`, frozen cells, every output per round; exhaustive core = fixed 8-node workbook × every input list of size 1–2 ×
 every output × 3 configurations; float-valued workbooks (0.1+0.2, 1/3, 16–17-digit values) with threshold outputs, T = L = U
@@ -129,7 +131,8 @@ inexact kernels compared with `num_close` 1e-12, everything else exactly. quick 
 ≈ 100–150 s."""
 AS['C11'] = """**As built.** Model `Model/Addr.lean` (cells, rectangles with 0 = unbounded, `Res`, printers for coordinate/abs/address/
 quoted/R1C1, a parser following `AddressRange.create` line by line, `&`/`**` on operands, offsets), limits and R1C1 combos
-regenerated into `Generated/AddrLimits.lean`. 45 theorems (incl. `C11_inter_spec_unbounded`, `C11_inter_cells_unbounded` for
+regenerated into `Generated/AddrLimits.lean`. 48 theorems (incl. `C11_cells_sheet`, `C11_cells_resheet`, `C11_resheet` —
+enumeration is a function of the address value alone —, `C11_inter_spec_unbounded`, `C11_inter_cells_unbounded` for
 whole-row/column operands and the mixed-sheet laws `C11_sheet_rule`, `C11_comm_sheets`, `C11_assoc_sheets`,
 `C11_union_assoc_all_sheets`): `limits_spec`, `C11_col_roundtrip` (every n), `C11_sheet_quote_roundtrip`,
 `C11_print_parse_cell/_range`, `C11_print_parse_partial` + counterexample (sheet name containing `!` — known finding
@@ -160,7 +163,8 @@ every shape with scalar/equal/unequal partners, fit on 17 result shapes × 16 ta
 depth 0–3 with set_value, every outcome class of the scalar kernels under `^ / % −`. quick ≈ 6 200 cases ≈ 11–24 s; thorough
 ≈ 28 600 ≈ 60 s."""
 AS['C14'] = """**As built.** Model `Model/Aggregates.lean` (exact `Rat`): `firstErr`, `nums`, the five aggregates, SUBTOTAL dispatch through
-`Generated/Subtotal.lean`, `sumproduct`. 28 theorems for all lists/arrays: `C14_numeric_only`, `C14_ignore_remove/_replace`,
+`Generated/Subtotal.lean`, `sumproduct`; a cell is an error only if it is one of the live `ERROR_CODES`
+(`Generated/AggErrors.lean`, `C14_error_cells`). 29 theorems for all lists/arrays: `C14_numeric_only`, `C14_ignore_remove/_replace`,
 `C14_first_error`, `C14_count_ignores_errors`, `C14_perm` (under `OneErr`) + `C14_perm_two_errors_counterexample`,
 `C14_reshape`, `C14_sum_append/_rows/_partition/_filter_partition`, `C14_average(_empty)`, `C14_minmax_empty`, `C14_min/max_spec`,
 `C14_subtotal(_table/_modelled)`, `C14_sumproduct(_two/_zero_fill/_error/_shape_mismatch)`. Correspondence through `lib_call`,
